@@ -145,13 +145,18 @@ def cyc_two_connections_same_instant(sc, i):
     # (threads run in creation order, so both "closing connection older than the busy one" and the reverse are produced)
     c = _fresh_accept(sc)
     sc.apply(("m", c, "cer_p2"))
-    if i % 2 == 0:
+    if i % 3 == 0:
         sc.apply(("x", c, "badlen", sc.std, "dwr"))
-    else:
+    elif i % 3 == 1:
         c2 = _fresh_accept(sc)
         sc.apply(("m", c2, "cer_p0"))
         sc.apply(("x", c, "badlen", c2, "dwr"))
         sc.apply(("eof", c2))
+    else:
+        # both readers close their connection in the same instant
+        c2 = _fresh_accept(sc)
+        sc.apply(("m", c2, "cer_p0"))
+        sc.apply(("x", c, "badlen", c2, "badlen"))
 
 
 def cyc_conn_garbage(sc, i):
